@@ -40,6 +40,9 @@ def main():
         common.replay_bin()          # built before the workers fork: path witnesses are cross-validated natively inside them
         if prop in ('C02', 'C03', 'C09', 'C10', 'C13', 'C18'):
             common.replay_bin(small=True)
+        if prop == 'C12':
+            common.replay_bin(chrono=True)
+            engine.load_program(variant='chrono')          # second program: mpd_client with its optional chrono feature
     except engine.Inconclusive as e:
         print('INCONCLUSIVE: %s' % e)
         return 2
@@ -47,12 +50,15 @@ def main():
     random.Random(seed).shuffle(insts)
     results = engine.pmap('props.' + prop.lower(), 'run_instance', insts)
     bad = [(i, r) for i, r in zip(insts, results) if r[0] != 'ok']
-    if bad:
+    def report_bad():
         for i, r in bad[:5]:
             print('INCONCLUSIVE instance %s: %s' % (json.dumps(i, default=str)[:200], r[1]))
         print('INCONCLUSIVE: %d of %d instances could not be decided (not a verdict about the repository)' % (len(bad), len(insts)))
+    if bad and not any(r[0] == 'ok' and r[1]['violations'] for r in results):
+        report_bad()
         return 2
-    tot = common.merge([r[1] for r in results])
+    # (some instances undecided, others found counterexamples: a natively reproduced counterexample stands on its own)
+    tot = common.merge([r[1] for r in results if r[0] == 'ok'])
     rc = 0
     lines = []
     try:
@@ -96,6 +102,9 @@ def main():
             print('counterexample: %s; %s' % (v['what'], detail))
             print('VIOLATION property=%s replay=%s' % (prop, p))
         return 1
+    if bad:
+        report_bad()
+        return 2
     if missing:
         print('INCONCLUSIVE: vacuity witness missing - no feasible path reached oracle class(es) %s' % missing)
         return 2
